@@ -3,6 +3,7 @@
 package core
 
 import (
+	"encoding/base64"
 	"encoding/json"
 	"fmt"
 	"math/rand/v2"
@@ -11,6 +12,7 @@ import (
 	"strings"
 	"sync/atomic"
 	"time"
+	"unicode/utf8"
 
 	"verif/simrt"
 )
@@ -365,3 +367,33 @@ func DurBetween(rng *rand.Rand, lo, hi time.Duration) time.Duration {
 	return time.Duration(v)
 }
 func Chance(rng *rand.Rand, p float64) bool { return rng.Float64() < p }
+
+// Bin is a string that may hold arbitrary bytes (a log line cut inside a multi-byte rune, invalid UTF-8 on
+// purpose). encoding/json would replace such bytes by U+FFFD and the replay file would describe another
+// input: valid UTF-8 is written as a plain JSON string, anything else as {"b64": "..."}.
+type Bin string
+
+func (b Bin) MarshalJSON() ([]byte, error) {
+	if utf8.ValidString(string(b)) {
+		return json.Marshal(string(b))
+	}
+	return json.Marshal(map[string]string{"b64": base64.StdEncoding.EncodeToString([]byte(b))})
+}
+
+func (b *Bin) UnmarshalJSON(data []byte) error {
+	var s string
+	if err := json.Unmarshal(data, &s); err == nil {
+		*b = Bin(s)
+		return nil
+	}
+	var m map[string]string
+	if err := json.Unmarshal(data, &m); err != nil {
+		return err
+	}
+	raw, err := base64.StdEncoding.DecodeString(m["b64"])
+	if err != nil {
+		return err
+	}
+	*b = Bin(raw)
+	return nil
+}
